@@ -5,13 +5,20 @@ package props
 // Inputs
 //   fa <width> <typ> <alphabet> {<name> <desc> <letters> <quals>}*
 //   fq <qid> <typ> <enc> <alphabet> {<name> <desc> <letters> <quals>}*
+//   fva <width|-> <prec|-> <typ> <alphabet> <name> <desc> <letters> <quals>
+//   fvq <plus> <prec|-> <typ> <enc> <alphabet> <name> <desc> <letters> <quals>
 //
 // typ: s = *linear.Seq, q = *linear.QSeq; enc = numeric alphabet.Encoding of the QSeq;
 // record fields in hex.  The records are built from the repository's own types, written
 // with fasta.Writer / fastq.Writer to a bytes.Buffer and read back with the matching reader.
 //
+// fva / fvq: one sequence formatted with the %a / %q verb of its Format method (width,
+// precision and the '+' flag as given) and read back with the matching reader.  These verbs are
+// anchors of C01 but not part of its statement: they are only compared with the model.
+//
 // Observation
 //   w <n,...> <delta,...> <fnv64 of the bytes> <len of the bytes> r <call history>
+//   f <fnv64 of the bytes> <len of the bytes> r <call history>            (fva, fvq)
 // n = value returned by each Write, delta = growth of the buffer during that Write.
 
 import (
@@ -50,6 +57,8 @@ func c01Exec(input string) string {
 		ns, ds []int
 	)
 	switch f[0] {
+	case "fva", "fvq":
+		return c01FormatExec(f)
 	case "fa":
 		typ, alpha, rs = f[2], builtinByName(f[3]), sioParseRecs(f[4:])
 		w = fasta.NewWriter(&buf, hx.Atoi(f[1]))
@@ -80,9 +89,96 @@ func c01Exec(input string) string {
 	return fmt.Sprintf("w %s %s %s %d r %s", hx.Ints(ns), hx.Ints(ds), sioFnv(data), len(data), calls)
 }
 
+func c01FormatExec(f []string) string {
+	verb := "%"
+	var (
+		typ   string
+		alpha alphabet.Alphabet
+		enc   = alphabet.Sanger
+		rs    []sioRec
+	)
+	if f[0] == "fva" {
+		if f[1] != "-" {
+			verb += f[1]
+		}
+		if f[2] != "-" {
+			verb += "." + f[2]
+		}
+		verb += "a"
+		typ, alpha, rs = f[3], builtinByName(f[4]), sioParseRecs(f[5:])
+	} else {
+		if f[1] == "1" {
+			verb += "+"
+		}
+		if f[2] != "-" {
+			verb += "." + f[2]
+		}
+		verb += "q"
+		typ, enc, alpha, rs = f[3], sioEnc(f[4]), builtinByName(f[5]), sioParseRecs(f[6:])
+	}
+	if len(rs) != 1 {
+		return "norec"
+	}
+	out := []byte(fmt.Sprintf(verb, sioSeq(typ, rs[0], alpha, enc)))
+	var calls string
+	if f[0] == "fva" {
+		calls = sioReadFasta(out, typ, alpha)
+	} else {
+		calls = sioReadFastq(out, typ, alpha, enc)
+	}
+	return fmt.Sprintf("f %s %d r %s", sioFnv(out), len(out), calls)
+}
+
+func c01FormatGen(g *hx.Gen) {
+	alpha := sioAlphabets[g.Intn(len(sioAlphabets))]
+	typ := "s"
+	if g.Chance(0.6) {
+		typ = "q"
+	}
+	enc := sioPhredEncodings[g.Intn(len(sioPhredEncodings))]
+	width := g.Pick(1, 2, 3, 60, 70, 4096)
+	rs := sioRecords(g, alpha, width, typ == "q", enc, 1)
+	if len(rs) == 0 {
+		rs = []sioRec{{name: sioName(g), desc: sioDesc(g)}}
+	}
+	r := rs[0]
+	if typ == "q" && len(r.quals) > 0 && g.Chance(0.4) {
+		// scores below the QSeq threshold (3): the letter is replaced by the ambiguous letter
+		for k := g.Pick(1, 2, 5); k > 0; k-- {
+			r.quals[g.Intn(len(r.quals))] = byte(g.Pick(0, 1, 2, 3))
+		}
+	}
+	if len(r.letters) > 0 && g.Chance(0.2) {
+		r.letters[g.Intn(len(r.letters))] = byte(builtinByName(alpha).Gap())
+	}
+	if len(r.letters) > 0 && g.Chance(0.03) {
+		r.letters[g.Intn(len(r.letters))] = byte(g.Pick(0x80, 0xa0, 0xff, 0xc2))
+	}
+	prec := "-"
+	if g.Chance(0.15) {
+		prec = fmt.Sprint(g.Pick(0, 1, len(r.letters)-1, len(r.letters), len(r.letters)+1, 5))
+		if strings.HasPrefix(prec, "-") {
+			prec = "0"
+		}
+	}
+	if g.Chance(0.5) {
+		w := fmt.Sprint(width)
+		if g.Chance(0.25) {
+			w = "-"
+		}
+		g.Case(fmt.Sprintf("fva %s %s %s %s", w, prec, typ, alpha) + sioRecTokens([]sioRec{r}))
+	} else {
+		g.Case(fmt.Sprintf("fvq %s %s %s %d %s", hx.B(g.Chance(0.5)), prec, typ, int(enc), alpha) + sioRecTokens([]sioRec{r}))
+	}
+}
+
 func c01Gen(g *hx.Gen) {
 	n := g.Scale(10000, 150000)
 	for k := 0; k < n && !g.Done(); k++ {
+		if g.Chance(0.12) {
+			c01FormatGen(g)
+			continue
+		}
 		alpha := sioAlphabets[g.Intn(len(sioAlphabets))]
 		typ := "s"
 		if g.Chance(0.5) {
@@ -152,8 +248,11 @@ func c01Spoil(g *hx.Gen, rs []sioRec, width int, fastqStyle bool) ([]sioRec, int
 func c01Shrink(input string) []string {
 	f := hx.Fields(input)
 	hdr := 4
-	if f[0] == "fq" {
+	switch f[0] {
+	case "fq", "fva":
 		hdr = 5
+	case "fvq":
+		hdr = 6
 	}
 	if len(f) < hdr {
 		return nil
